@@ -217,6 +217,9 @@ func RunHarness(ld *Loaded, pkgPath, fnName string, cfg *Config, workers int) (*
 	if fn == nil {
 		return nil, fmt.Errorf("harness %s.%s not found", pkgPath, fnName)
 	}
+	if err := SetRebase(ld, cfg.Params["chunk"]); err != nil {
+		return nil, err
+	}
 	x := NewExplorer(cfg, fnName)
 	var wg sync.WaitGroup
 	errc := make(chan error, workers)
@@ -326,6 +329,32 @@ func (i *interpreter) runPath(fn *ssa.Function, prefix []dec) {
 			}
 		}
 	}
+	// witness sampling (translator validation by native replay)
+	if outcome == "ok" {
+		maxW := e.cfg.MaxWitnesses
+		if maxW == 0 {
+			maxW = 8
+		}
+		h := fnv32(trailString(e.trail)) ^ uint32(e.cfg.Seed*2654435761)
+		x.mu.Lock()
+		take := len(x.Witnesses) < maxW && (len(x.Witnesses) < 2 || h%5 == 0)
+		x.mu.Unlock()
+		if take && e.check() == Sat {
+			if m, err := e.model(); err == nil {
+				w := e.buildViolation("witness", "", m)
+				for _, l := range e.logs.events {
+					if strings.HasPrefix(l, "reach:") {
+						w.Reach = append(w.Reach, l[6:])
+					}
+				}
+				x.mu.Lock()
+				if len(x.Witnesses) < maxW {
+					x.Witnesses = append(x.Witnesses, w)
+				}
+				x.mu.Unlock()
+			}
+		}
+	}
 	x.mu.Lock()
 	x.Transitions += e.nTrans
 	switch outcome {
@@ -416,4 +445,13 @@ func hostStack() string {
 		}
 	}
 	return strings.Join(out, "\n")
+}
+
+func fnv32(s string) uint32 {
+	h := uint32(2166136261)
+	for i := 0; i < len(s); i++ {
+		h ^= uint32(s[i])
+		h *= 16777619
+	}
+	return h
 }
